@@ -853,7 +853,7 @@ theorem mem_keysOf {ms : List (String × Json)} {m : String × Json} (h : m ∈ 
   simp only [keysOf, List.mem_map]; exact ⟨m, h, rfl⟩
 
 theorem normFields_second_part {rec : Rec} (hr : RecGood rec) {all fs : List Field}
-    (hkw : ∀ f ∈ all, f.jsonName ∈ keywordList) (hfs : ∀ f ∈ fs, f ∈ all)
+    (hkw : ∀ f ∈ all, f.jsonName ∈ keywordList) (hfs : ∀ f ∈ fs, f.jsonName ∈ all.map (·.jsonName))
     (hnd : (fs.map (·.jsonName)).Nodup) {ms b out : List (String × Json)}
     (h : normFields rec all fs ms = .ok b) (hout : (keysOf out).Nodup) (hclean : CleanM out)
     (hbsub : ∀ m ∈ b, m ∈ out) (hown : ∀ m ∈ out, m.1 ∈ fs.map (·.jsonName) → m ∈ b) :
@@ -861,7 +861,7 @@ theorem normFields_second_part {rec : Rec} (hr : RecGood rec) {all fs : List Fie
   have hbnd : (keysOf b).Nodup := hnd.sublist (normFields_nd hr.nd all fs ms b h).1
   refine normFields_second hr all out fs ms b h hnd ?_ (fun m hm => cleanM_vals hclean m (hbsub m hm))
   intro f hf
-  have hn : f.jsonName ∈ all.map (·.jsonName) := List.mem_map.mpr ⟨f, hfs f hf, rfl⟩
+  have hn : f.jsonName ∈ all.map (·.jsonName) := hfs f hf
   rw [fieldVals_eq hkw hn (cleanM_names hclean), filter_key_nodup _ hout]
   congr 1
   apply lookupKey_owner hout hbnd hbsub
@@ -979,7 +979,7 @@ theorem normStruct_second {rec : Rec} (hr : RecGood rec) (hT : tablesNodup Gen.s
   simp only [normStruct, bind, Except.bind] at h
   split at h
   · simp at h
-  · have := normFields_second_part hr (lookupStruct_keywords n) (fun f hf => hf) (lookupStruct_nodup hT n) h
+  · have := normFields_second_part hr (lookupStruct_keywords n) (fun f hf => List.mem_map.mpr ⟨f, hf, rfl⟩) (lookupStruct_nodup hT n) h
       hout hclean hbsub hown
     simpa [normStruct, structMembers, bind, Except.bind, pure, Except.pure] using this
 
@@ -1022,7 +1022,7 @@ theorem normOperationProps_second {rec : Rec} (hr : RecGood rec) (hT : tablesNod
           normFields rec (tableOf "OperationProps") ((tableOf "OperationProps").filter (·.jsonName != "security")) out
             = .ok others := by
         intro sec hb hsec
-        refine normFields_second_part hr hkw (fun f hf => (List.mem_filter.mp hf).1) (hn.sublist hsubl) hothers
+        refine normFields_second_part hr hkw (fun f hf => List.mem_map.mpr ⟨f, (List.mem_filter.mp hf).1, rfl⟩) (hn.sublist hsubl) hothers
           hout hclean (fun m hm => hbsub m (by rw [hb]; simp [hm])) ?_
         intro m hm hk
         have := hown m hm (hsubl.subset hk)
@@ -1374,9 +1374,9 @@ theorem normSchema_second {rec : Rec} (hr : RecGood rec) (hT : tablesNodup Gen.s
                 rcases List.mem_append.mp hf with h1 | h1
                 · exact lookupStruct_keywords "SchemaProps" f h1
                 · exact lookupStruct_keywords "SwaggerSchemaProps" f h1
-              have h1 := normFields_second_part hr hkw (fun f hf => List.mem_append.mpr (.inl hf))
+              have h1 := normFields_second_part hr hkw (fun f hf => List.mem_map.mpr ⟨f, List.mem_append.mpr (.inl hf), rfl⟩)
                 (lookupStruct_nodup hT "SchemaProps") hb1 hout hclean s1 (fun m hm hx => o1 m hm (.inl hx))
-              have h5 := normFields_second_part hr hkw (fun f hf => List.mem_append.mpr (.inr hf))
+              have h5 := normFields_second_part hr hkw (fun f hf => List.mem_map.mpr ⟨f, List.mem_append.mpr (.inr hf), rfl⟩)
                 (lookupStruct_nodup hT "SwaggerSchemaProps") hb5 hout hclean s5 (fun m hm hx => o5 m hm (.inl hx))
               obtain ⟨d, hd⟩ := normAnyMembers_total out hclean
               have h3 := refOfMap_second hb3 hout hclean hd s3 (fun m hm hx => o3 m hm (.inl (by simp [hx])))
@@ -1397,5 +1397,405 @@ theorem normSchema_second {rec : Rec} (hr : RecGood rec) (hT : tablesNodup Gen.s
                   exact hown6 m hm hq.2 hq.1)
               have := normSchema_eval h1 h5 hd h3 h4 h2 h6
               rw [this, concatMembers_eq, hout_def]
+
+
+/-! ### tables that differ only in an `omitempty` flag -/
+
+theorem setOmitEmpty_cons (n : String) (f : Field) (fs : List Field) :
+    setOmitEmpty n (f :: fs) = (if f.jsonName == n then { f with omitEmpty := true } else f) :: setOmitEmpty n fs := rfl
+
+theorem normFields_setOmit {rec : Rec} (all : List Field) (n : String) :
+    ∀ (fs : List Field) (ms lit : List (String × Json)), normFields rec all (setOmitEmpty n fs) ms = .ok lit →
+      ∃ full, normFields rec all fs ms = .ok full ∧ ∀ k, k ≠ n → lookupKey full k = lookupKey lit k := by
+  intro fs
+  induction fs with
+  | nil => intro ms lit h; exact ⟨lit, by simpa [setOmitEmpty, normFields] using h, fun _ _ => rfl⟩
+  | cons f rest ih =>
+    intro ms lit h
+    rw [setOmitEmpty_cons] at h
+    simp only [normFields, bind, Except.bind] at h
+    split at h
+    · simp at h
+    · rename_i st hst
+      split at h
+      · simp at h
+      · rename_i rest' hrest'
+        simp only [pure, Except.pure, Except.ok.injEq] at h
+        obtain ⟨full', hf', hl'⟩ := ih ms rest' hrest'
+        have hst2 : fieldState rec all f ms = .ok st := by
+          by_cases hn : (f.jsonName == n) = true
+          · simpa [hn, fieldState] using hst
+          · simpa [hn, fieldState] using hst
+        refine ⟨_, by simp only [normFields, bind, Except.bind, hst2, hf', pure, Except.pure]; rfl, ?_⟩
+        intro k hk
+        rw [← h]
+        by_cases hn : (f.jsonName == n) = true
+        · have hname : f.jsonName = n := by simpa using hn
+          have key1 : ∀ m, encodeField f st = some m → m.1 = n := fun m hm => by rw [encodeField_key hm, hname]
+          have key2 : ∀ m, encodeField (if (f.jsonName == n) = true then { f with omitEmpty := true } else f) st = some m →
+              m.1 = n := fun m hm => by rw [encodeField_key hm]; simp [hn, hname]
+          generalize encodeField f st = e1 at key1
+          generalize encodeField (if (f.jsonName == n) = true then { f with omitEmpty := true } else f) st = e2 at key2
+          have step : ∀ (e : Option (String × Json)) (r : List (String × Json)), (∀ m, e = some m → m.1 = n) →
+              lookupKey (match e with | some m => m :: r | none => r) k = lookupKey r k := by
+            intro e r he
+            cases e with
+            | none => rfl
+            | some m =>
+              obtain ⟨a, b⟩ := m
+              have : a = n := he (a, b) rfl
+              subst this
+              exact lookupKey_cons_ne (fun h => hk h.symm)
+          cases e1 with
+          | none =>
+            cases e2 with
+            | none => exact hl' k hk
+            | some m2 =>
+              obtain ⟨a, b⟩ := m2
+              have : a = n := key2 (a, b) rfl
+              subst this
+              show lookupKey full' k = lookupKey ((a, b) :: rest') k
+              rw [lookupKey_cons_ne (fun h => hk h.symm)]; exact hl' k hk
+          | some m1 =>
+            obtain ⟨a1, b1⟩ := m1
+            have : a1 = n := key1 (a1, b1) rfl
+            subst this
+            cases e2 with
+            | none =>
+              show lookupKey ((a1, b1) :: full') k = lookupKey rest' k
+              rw [lookupKey_cons_ne (fun h => hk h.symm)]; exact hl' k hk
+            | some m2 =>
+              obtain ⟨a, b⟩ := m2
+              have : a = a1 := key2 (a, b) rfl
+              subst this
+              show lookupKey ((a, b1) :: full') k = lookupKey ((a, b) :: rest') k
+              rw [lookupKey_cons_ne (fun h => hk h.symm), lookupKey_cons_ne (fun h => hk h.symm)]; exact hl' k hk
+        · simp only [hn] at *
+          simp only [Bool.false_eq_true, if_false]
+          cases encodeField f st with
+          | none => exact hl' k hk
+          | some m =>
+            obtain ⟨a, b⟩ := m
+            by_cases hak : a = k
+            · subst hak; simp [lookupKey_cons_eq]
+            · show lookupKey ((a, b) :: full') k = lookupKey ((a, b) :: rest') k
+              rw [lookupKey_cons_ne hak, lookupKey_cons_ne hak]; exact hl' k hk
+
+/-! ### SecurityScheme -/
+
+theorem normSecurityScheme_second {rec : Rec} (hr : RecGood rec) (hT : tablesNodup Gen.structs = true)
+    (hk : partsOK securitySchemeDescs = true) {j r : Json} (h : normSecurityScheme rec j = .ok r) (hc : Clean r) :
+    normSecurityScheme rec r = .ok r := by
+  have hn := lookupStruct_nodup hT "SecuritySchemeProps"
+  have hkw : ∀ f ∈ tableOf "SecuritySchemeProps", f.jsonName ∈ keywordList := lookupStruct_keywords "SecuritySchemeProps"
+  simp only [normSecurityScheme, bind, Except.bind] at h
+  split at h
+  · simp at h
+  · rename_i ms _
+    split at h
+    · simp at h
+    · rename_i full hfull
+      split at h
+      · simp at h
+      · rename_i b2 hb2
+        have c2 := normExtensions_conf hb2
+        split at h
+        · -- oauth2 with a flow that needs the authorization URL: the full table
+          rename_i hflow
+          simp only [pure, Except.pure, Except.ok.injEq] at h; subst h
+          have cf := normFields_conf hr.nd (names := tableNames (lookupStruct Gen.structs "SecuritySchemeProps"))
+            (by rw [tableOf_names]; exact List.Sublist.refl _) hn hfull
+          have call : ConfAll securitySchemeDescs [full, b2] := .cons cf.1 (.cons c2.1 .nil)
+          have hout := confAll_nodup call hk
+          have hclean := clean_concat hc
+          have hown := ownAll_of_confAll call _ hk (fun m hm => hm) (fun m hm => .inl hm)
+          cases hown with
+          | cons _ s1 o1 hown =>
+          cases hown with
+          | cons _ s2 o2 _ =>
+          have h1 := normFields_second_part hr hkw (fun f hf => List.mem_map.mpr ⟨f, hf, rfl⟩) hn hfull hout hclean s1
+            (fun m hm hx => o1 m hm (.inl hx))
+          have h2 := normExtensions_second hb2 hout hclean s2 (fun m hm hx => o2 m hm (.inr ⟨rfl, hx⟩))
+          rw [concatMembers_eq]
+          simp only [normSecurityScheme, structMembers, bind, Except.bind, pure, Except.pure, h1, h2, hflow, if_true]
+          rw [concatMembers_eq]
+        · rename_i hflow
+          split at h
+          · simp at h
+          · rename_i lit hlit
+            simp only [pure, Except.pure, Except.ok.injEq] at h; subst h
+            have hsn : (setOmitEmpty "authorizationUrl" (tableOf "SecuritySchemeProps")).map (·.jsonName) =
+                tableNames (lookupStruct Gen.structs "SecuritySchemeProps") := by
+              rw [setOmitEmpty_names, tableOf_names]
+            have cl := normFields_conf hr.nd (names := tableNames (lookupStruct Gen.structs "SecuritySchemeProps"))
+              (by rw [hsn]; exact List.Sublist.refl _) hn hlit
+            have call : ConfAll securitySchemeDescs [lit, b2] := .cons cl.1 (.cons c2.1 .nil)
+            have hout := confAll_nodup call hk
+            have hclean := clean_concat hc
+            have hown := ownAll_of_confAll call _ hk (fun m hm => hm) (fun m hm => .inl hm)
+            cases hown with
+            | cons _ s1 o1 hown =>
+            cases hown with
+            | cons _ s2 o2 _ =>
+            have h1 := normFields_second_part hr hkw
+              (fun f hf => by
+                have : f.jsonName ∈ (setOmitEmpty "authorizationUrl" (tableOf "SecuritySchemeProps")).map (·.jsonName) :=
+                  List.mem_map.mpr ⟨f, hf, rfl⟩
+                rw [setOmitEmpty_names] at this; exact this)
+              (by rw [hsn]; exact hn) hlit hout hclean s1
+              (fun m hm hx => o1 m hm (.inl (by rw [hsn] at hx; exact hx)))
+            have h2 := normExtensions_second hb2 hout hclean s2 (fun m hm hx => o2 m hm (.inr ⟨rfl, hx⟩))
+            -- the full table succeeds too and sees the same `type` and `flow`
+            obtain ⟨full1, hf1, hl1⟩ := normFields_setOmit _ _ _ _ _ hlit
+            obtain ⟨full2, hf2, hl2⟩ := normFields_setOmit _ _ _ _ _ h1
+            rw [hfull] at hf1
+            simp only [Except.ok.injEq] at hf1; subst hf1
+            have e1 : lookupKey full2 "type" = lookupKey full "type" := by
+              rw [hl2 _ (by decide), hl1 _ (by decide)]
+            have e2 : lookupKey full2 "flow" = lookupKey full "flow" := by
+              rw [hl2 _ (by decide), hl1 _ (by decide)]
+            rw [concatMembers_eq]
+            simp only [normSecurityScheme, structMembers, bind, Except.bind, pure, Except.pure, hf2, h2, e1, e2, hflow,
+              h1]
+            rw [concatMembers_eq]
+            rfl
+
+theorem normSecurityScheme_isObj {rec : Rec} {j r : Json} (h : normSecurityScheme rec j = .ok r) :
+    ∃ ms, r = .obj ms := by
+  simp only [normSecurityScheme, bind, Except.bind] at h
+  repeat (split at h; (· simp at h))
+  split at h
+  · simp only [pure, Except.pure, Except.ok.injEq] at h; rw [concatMembers_eq] at h; exact ⟨_, h.symm⟩
+  · split at h
+    · simp at h
+    · simp only [pure, Except.pure, Except.ok.injEq] at h; rw [concatMembers_eq] at h; exact ⟨_, h.symm⟩
+
+
+/-! ### leaving fields out of a table -/
+
+theorem normFields_filter {rec : Rec} (all : List Field) (q : String → Bool) :
+    ∀ (fs : List Field) (ms b : List (String × Json)), normFields rec all fs ms = .ok b →
+      normFields rec all (fs.filter (fun f => q f.jsonName)) ms = .ok (b.filter (fun m => q m.1)) := by
+  intro fs
+  induction fs with
+  | nil => intro ms b h; simp [normFields, pure, Except.pure] at h; subst h; rfl
+  | cons f rest ih =>
+    intro ms b h
+    simp only [normFields, bind, Except.bind] at h
+    split at h
+    · simp at h
+    · rename_i st hst
+      split at h
+      · simp at h
+      · rename_i rest' hrest'
+        simp only [pure, Except.pure, Except.ok.injEq] at h
+        have hi := ih ms rest' hrest'
+        cases hq : q f.jsonName with
+        | true =>
+          simp only [List.filter_cons, hq, if_true, normFields, bind, Except.bind, hst, hi, pure, Except.pure]
+          cases he : encodeField f st with
+          | none => simp [he] at h ⊢; rw [← h]
+          | some m =>
+            simp [he] at h ⊢; rw [← h]
+            have : q m.1 = true := by rw [encodeField_key he]; exact hq
+            simp [List.filter_cons, this]
+        | false =>
+          simp only [List.filter_cons, hq, Bool.false_eq_true, if_false, hi]
+          cases he : encodeField f st with
+          | none => simp [he] at h; rw [← h]
+          | some m =>
+            simp [he] at h; rw [← h]
+            have : q m.1 = false := by rw [encodeField_key he]; exact hq
+            simp [List.filter_cons, this]
+
+theorem normFields_unfilter {rec : Rec} (all : List Field) (q : String → Bool) :
+    ∀ (fs : List Field) (ms b' : List (String × Json)),
+      normFields rec all (fs.filter (fun f => q f.jsonName)) ms = .ok b' →
+      (∀ f ∈ fs, q f.jsonName = false → ∃ st, fieldState rec all f ms = .ok st) →
+      ∃ b, normFields rec all fs ms = .ok b ∧ b.filter (fun m => q m.1) = b' := by
+  intro fs
+  induction fs with
+  | nil => intro ms b' h _; exact ⟨b', by simpa using h, by simp [normFields, pure, Except.pure] at h; subst h; rfl⟩
+  | cons f rest ih =>
+    intro ms b' h hst
+    cases hq : q f.jsonName with
+    | true =>
+      simp only [List.filter_cons, hq, if_true, normFields, bind, Except.bind] at h
+      split at h
+      · simp at h
+      · rename_i st hst'
+        split at h
+        · simp at h
+        · rename_i r' hr'
+          simp only [pure, Except.pure, Except.ok.injEq] at h
+          obtain ⟨rb, hrb, hfb⟩ := ih ms r' hr' (fun g hg => hst g (by simp [hg]))
+          cases he : encodeField f st with
+          | none =>
+            refine ⟨rb, by simp [normFields, bind, Except.bind, hst', hrb, he, pure, Except.pure], ?_⟩
+            simp [he] at h; rw [hfb, h]
+          | some m =>
+            refine ⟨m :: rb, by simp [normFields, bind, Except.bind, hst', hrb, he, pure, Except.pure], ?_⟩
+            simp [he] at h
+            have : q m.1 = true := by rw [encodeField_key he]; exact hq
+            simp [List.filter_cons, this, hfb, h]
+    | false =>
+      simp only [List.filter_cons, hq, Bool.false_eq_true, if_false] at h
+      obtain ⟨rb, hrb, hfb⟩ := ih ms b' h (fun g hg => hst g (by simp [hg]))
+      obtain ⟨st, hst'⟩ := hst f (by simp) hq
+      cases he : encodeField f st with
+      | none => exact ⟨rb, by simp [normFields, bind, Except.bind, hst', hrb, he, pure, Except.pure], hfb⟩
+      | some m =>
+        refine ⟨m :: rb, by simp [normFields, bind, Except.bind, hst', hrb, he, pure, Except.pure], ?_⟩
+        have : q m.1 = false := by rw [encodeField_key he]; exact hq
+        simp [List.filter_cons, this, hfb]
+
+
+/-! ### Response -/
+
+/-- the `hasRef` test of `Response.MarshalJSON`, on the encoded `Refable` part -/
+def hasRefOf (b2 : List (String × Json)) : Bool :=
+  match b2 with
+  | [(_, .str t)] => t != ""
+  | _ => false
+
+theorem normResponse_unfold (rec : Rec) (j : Json) : normResponse rec j = (do
+    let ms ← structMembers j
+    let props := tableOf "ResponseProps"
+    let full ← normFields rec props props ms
+    let b2 ← normRefable j
+    let b3 ← normExtensions j
+    if hasRefOf b2 then do
+      let lit ← normFields rec props (setOmitEmpty "description" props) ms
+      pure (concatMembers [lit.filter (fun m => (fun k => k != "headers") m.1), b2, b3])
+    else
+      pure (concatMembers [full, b2, b3])) := rfl
+
+theorem normResponse_second {rec : Rec} (hr : RecGood rec) (hT : tablesNodup Gen.structs = true)
+    (hk : partsOK responseDescs = true) {j r : Json} (h : normResponse rec j = .ok r) (hc : Clean r) :
+    normResponse rec r = .ok r := by
+  have hn := lookupStruct_nodup hT "ResponseProps"
+  have hkw : ∀ f ∈ tableOf "ResponseProps", f.jsonName ∈ keywordList := lookupStruct_keywords "ResponseProps"
+  rw [normResponse_unfold] at h
+  simp only [bind, Except.bind] at h
+  split at h
+  · simp at h
+  · rename_i ms _
+    split at h
+    · simp at h
+    · rename_i full hfull
+      split at h
+      · simp at h
+      · rename_i b2 hb2
+        split at h
+        · simp at h
+        · rename_i b3 hb3
+          have c2 := normRefable_conf hb2
+          have c3 := normExtensions_conf hb3
+          cases hhr : hasRefOf b2 with
+          | false =>
+            simp only [hhr, Bool.false_eq_true, if_false, pure, Except.pure, Except.ok.injEq] at h; subst h
+            have cf := normFields_conf hr.nd (names := tableNames (lookupStruct Gen.structs "ResponseProps"))
+              (by rw [tableOf_names]; exact List.Sublist.refl _) hn hfull
+            have call : ConfAll responseDescs [full, b2, b3] := .cons cf.1 (.cons c2.1 (.cons c3.1 .nil))
+            have hout := confAll_nodup call hk
+            have hclean := clean_concat hc
+            have hown := ownAll_of_confAll call _ hk (fun m hm => hm) (fun m hm => .inl hm)
+            cases hown with
+            | cons _ s1 o1 hown =>
+            cases hown with
+            | cons _ s2 o2 hown =>
+            cases hown with
+            | cons _ s3 o3 _ =>
+            have h1 := normFields_second_part hr hkw (fun f hf => List.mem_map.mpr ⟨f, hf, rfl⟩) hn hfull hout hclean s1
+              (fun m hm hx => o1 m hm (.inl hx))
+            have h2 := normRefable_second hb2 hout hclean s2 (fun m hm hx => o2 m hm (.inl (by simp [hx])))
+            have h3 := normExtensions_second hb3 hout hclean s3 (fun m hm hx => o3 m hm (.inr ⟨rfl, hx⟩))
+            rw [concatMembers_eq, normResponse_unfold]
+            simp only [structMembers, bind, Except.bind, pure, Except.pure, h1, h2, h3, hhr, Bool.false_eq_true, if_false]
+            rw [concatMembers_eq]
+          | true =>
+            simp only [hhr, if_true, bind, Except.bind] at h
+            split at h
+            · simp at h
+            · rename_i lit hlit
+              simp only [pure, Except.pure, Except.ok.injEq] at h; subst h
+              have hsn : (setOmitEmpty "description" (tableOf "ResponseProps")).map (·.jsonName) =
+                  tableNames (lookupStruct Gen.structs "ResponseProps") := by
+                rw [setOmitEmpty_names, tableOf_names]
+              -- the literal's table without `headers`
+              have hlitF := normFields_filter (tableOf "ResponseProps") (fun k => k != "headers") _ _ _ hlit
+              have hsubl : ((setOmitEmpty "description" (tableOf "ResponseProps")).filter
+                  (fun f => (fun k => k != "headers") f.jsonName)).map (·.jsonName) |>.Sublist
+                  (tableNames (lookupStruct Gen.structs "ResponseProps")) := by
+                rw [← hsn]; exact (List.filter_sublist).map _
+              have cl := normFields_conf hr.nd (names := tableNames (lookupStruct Gen.structs "ResponseProps")) hsubl hn hlitF
+              have call : ConfAll responseDescs [lit.filter (fun m => (fun k => k != "headers") m.1), b2, b3] :=
+                .cons cl.1 (.cons c2.1 (.cons c3.1 .nil))
+              have hout := confAll_nodup call hk
+              have hclean := clean_concat hc
+              have hown := ownAll_of_confAll call _ hk (fun m hm => hm) (fun m hm => .inl hm)
+              cases hown with
+              | cons _ s1 o1 hown =>
+              cases hown with
+              | cons _ s2 o2 hown =>
+              cases hown with
+              | cons _ s3 o3 _ =>
+              have h1 := normFields_second_part hr hkw
+                (fun f hf => by
+                  have : f.jsonName ∈ (setOmitEmpty "description" (tableOf "ResponseProps")).map (·.jsonName) :=
+                    List.mem_map.mpr ⟨f, (List.mem_filter.mp hf).1, rfl⟩
+                  rw [setOmitEmpty_names] at this; exact this)
+                (hn.sublist hsubl) hlitF hout hclean s1 (fun m hm hx => o1 m hm (.inl (hsubl.subset hx)))
+              have h2 := normRefable_second hb2 hout hclean s2 (fun m hm hx => o2 m hm (.inl (by simp [hx])))
+              have h3 := normExtensions_second hb3 hout hclean s3 (fun m hm hx => o3 m hm (.inr ⟨rfl, hx⟩))
+              -- `headers` is not in the output, so its field reads nothing
+              have hnoh : "headers" ∉ keysOf [lit.filter (fun m => (fun k => k != "headers") m.1), b2, b3].flatten := by
+                intro hkk
+                simp only [keysOf, List.mem_map] at hkk
+                obtain ⟨m, hm, heq⟩ := hkk
+                by_cases hmem : "headers" ∈ tableNames (lookupStruct Gen.structs "ResponseProps")
+                · have := o1 m hm (.inl (by rw [heq]; exact hmem))
+                  have := (List.mem_filter.mp this).2
+                  simp [heq] at this
+                · -- not a member name of the table at all: then nobody may emit it
+                  have hcl := confAll_claims call m hm
+                  obtain ⟨d, hd, hcl⟩ := hcl
+                  simp only [responseDescs, List.mem_cons, List.not_mem_nil, or_false] at hd
+                  rcases hd with rfl | rfl | rfl
+                  · rcases hcl with h' | ⟨h', _⟩
+                    · rw [heq] at h'; exact hmem h'
+                    · simp at h'
+                  · rcases hcl with h' | ⟨h', _⟩
+                    · rw [heq] at h'; simp at h'
+                    · simp at h'
+                  · rcases hcl with h' | ⟨_, h'⟩
+                    · simp at h'
+                    · rw [heq] at h'; simp [isExtKey] at h'
+              obtain ⟨lit', hlit', hfl'⟩ := normFields_unfilter (tableOf "ResponseProps") (fun k => k != "headers") _ _ _ h1
+                (by
+                  intro f hf hq
+                  have hname : f.jsonName = "headers" := by simpa using hq
+                  have hfn : f.jsonName ∈ (tableOf "ResponseProps").map (·.jsonName) := by
+                    have : f.jsonName ∈ (setOmitEmpty "description" (tableOf "ResponseProps")).map (·.jsonName) :=
+                      List.mem_map.mpr ⟨f, hf, rfl⟩
+                    rw [setOmitEmpty_names] at this; exact this
+                  refine ⟨none, ?_⟩
+                  unfold fieldState
+                  rw [fieldVals_eq hkw hfn (cleanM_names hclean), filter_key_nodup _ hout, hname, lookupKey_none hnoh]
+                  rfl)
+              obtain ⟨full', hfull', _⟩ := normFields_setOmit _ _ _ _ _ hlit'
+              rw [concatMembers_eq, normResponse_unfold]
+              simp only [structMembers, bind, Except.bind, pure, Except.pure, hfull', h2, h3, hhr, if_true, hlit', hfl']
+              rw [concatMembers_eq]
+
+theorem normResponse_isObj {rec : Rec} {j r : Json} (h : normResponse rec j = .ok r) : ∃ ms, r = .obj ms := by
+  rw [normResponse_unfold] at h
+  simp only [bind, Except.bind] at h
+  repeat (split at h; (· simp at h))
+  split at h
+  · split at h
+    · simp at h
+    · simp only [pure, Except.pure, Except.ok.injEq] at h; rw [concatMembers_eq] at h; exact ⟨_, h.symm⟩
+  · simp only [pure, Except.pure, Except.ok.injEq] at h; rw [concatMembers_eq] at h; exact ⟨_, h.symm⟩
 
 end SpecModel.Codec
